@@ -163,6 +163,14 @@ static void setup_argument_context(bool is_retval, struct script_context *sc_ctx
 			dllua_pushinteger(L, ++count);
 			dllua_pushnumber(L, dval);
 			dllua_settable(L, -3);
+#else
+			/*
+			 * libmcount cannot touch floating-point values: keep the
+			 * positions of the other arguments (same placeholder as python).
+			 */
+			dllua_pushinteger(L, ++count);
+			dllua_pushstring(L, "<float>");
+			dllua_settable(L, -3);
 #endif
 			data += ALIGN(spec->size, 4);
 			break;
